@@ -44,6 +44,15 @@ def gen_docset(items):
             raise Fail(f'{u}: in-horizon guard `gap < HORIZON` of seek not found')
         return D('UNION_SEEK_IN_HORIZON_STRICT', 1 if g.group(1) == '<' else 0, 'seek treats target as buffered iff target - window_start < HORIZON (1) / <= (0)')
     items.append(seek_guard)
+    # which targets `seek_danger` answers from the buffered window: `is_in_horizon(target)` only (0),
+    # or also targets below the window start (1)
+    def danger_guard():
+        body = fn_body(u, 'seek_danger')
+        m = re.search(r'if\s+(target\s*<\s*self\.window_start_doc\s*\|\|\s*)?self\.is_in_horizon\(target\)\s*\{', body)
+        if not m:
+            raise Fail(f'{u}: buffered-window guard of seek_danger not found')
+        return D('UNION_SEEK_DANGER_BELOW_WINDOW_BUFFERED', 1 if m.group(1) else 0, 'seek_danger treats target < window_start as buffered (1) or as beyond the horizon (0)')
+    items.append(danger_guard)
     # density threshold of Intersection::count_including_deleted
     def density():
         body = fn_body('src/query/intersection.rs', 'count_including_deleted')
